@@ -201,6 +201,12 @@ func checkCmd(argv []string) int {
 			}
 		}
 	}
+	if tf := P.TheoremObligations(hasTag); tf != nil {
+		frs = append(frs, tf)
+		for _, o := range tf.Obls {
+			picked[o] = true
+		}
+	}
 	prelude := P.reg.Prelude()
 	SolveAll(func(*FuncResult) string { return prelude }, frs, func(o *Obligation) bool { return picked[o] }, timeout, runtime.NumCPU())
 	solveS := time.Since(t0).Seconds() - loadS - genS
